@@ -56,6 +56,8 @@ type Scenario struct {
 	Park      *ParkSpec `json:"p,omitempty"`
 	Foreign   int       `json:"f,omitempty"` // notifications with a foreign / missing operation id injected on the reply topic(s)
 	CloseSub  bool      `json:"k,omitempty"` // the reply Pub/Sub is closed before the callers end their contexts ("subscriber closed" path)
+	NoHook    bool      `json:"h,omitempty"` // OnListenForReplyFinished is not configured (nil): the end of the listeners is observed by the goroutine census
+	HookWait  bool      `json:"w,omitempty"` // the hook of a draining caller waits until that caller has seen the channel closed (order close → hook)
 	Tag       string    `json:"g,omitempty"`
 }
 
@@ -90,6 +92,14 @@ func acks(outcome string, ackErrs bool) bool {
 // Normalise cuts every script after its first acking outcome and appends "ok" when none acks.
 func (sc *Scenario) Normalise() {
 	for i := range sc.Reqs {
+		if sc.NoHook {
+			// without the hook nothing tells a handler that the listener of its request has finished
+			for j, x := range sc.Reqs[i].Outcomes {
+				if x == "slow" {
+					sc.Reqs[i].Outcomes[j] = "ok"
+				}
+			}
+		}
 		if sc.CloseSub {
 			// once the reply Pub/Sub is closed every reply Publish fails and the command is redelivered for ever:
 			// no handler may still be running then
@@ -323,6 +333,26 @@ func Run(sc Scenario) *Result {
 	endNow := make([]chan struct{}, n)   // controller → caller: end the context now
 	ended := make([]chan struct{}, n)    // caller → controller: the context has been ended
 	sent := make([]chan struct{}, n)     // SendWithReplies / SendWithReply returned (or is known to block)
+	sawClosed := make([]chan struct{}, n) // a draining caller found the reply channel closed
+	var onceSaw = make([]sync.Once, n)
+	for i := 0; i < n; i++ {
+		sawClosed[i] = make(chan struct{})
+	}
+	// the listener of request i has ended: the hook ran, or (no hook configured) no listener goroutine is left at all
+	waitListener := func(i int, d time.Duration) bool {
+		if !sc.NoHook {
+			return waitCh(fin[i], d)
+		}
+		for t0 := time.Now(); ; {
+			if c, _ := gc.GoroutinesIn("ListenForNotifications"); c <= baseline {
+				return true
+			}
+			if time.Since(t0) > d {
+				return false
+			}
+			time.Sleep(time.Millisecond)
+		}
+	}
 	var once = make([]sync.Once, n)
 	var onceAck = make([]sync.Once, n)
 	for i := 0; i < n; i++ {
@@ -343,7 +373,7 @@ func Run(sc Scenario) *Result {
 		d := time.Duration(sc.TimeoutMs) * time.Millisecond
 		timeout = &d
 	}
-	backend, err := requestreply.NewPubSubBackend[Res](requestreply.PubSubBackendConfig{
+	backendCfg := requestreply.PubSubBackendConfig{
 		Publisher: &recordingPublisher{inner: replyPS, run: rs},
 		SubscriberConstructor: func(p requestreply.PubSubBackendSubscribeParams) (message.Subscriber, error) {
 			i := p.Command.(*Cmd).Req
@@ -378,8 +408,19 @@ func Run(sc Scenario) *Result {
 			rec.Log("fin", strconv.Itoa(i))
 			atomic.AddInt32(&finCount[i], 1)
 			once[i].Do(func() { close(fin[i]) })
+			if sc.HookWait && i < n && (sc.Reqs[i].Caller == "drain" || (sc.Reqs[i].Caller == "early" && sc.Reqs[i].ReadAfter)) {
+				// the unchanged code closes the channel before it calls the hook: the draining caller sees the close while
+				// the hook is still running
+				if !waitCh(sawClosed[i], liveness) {
+					rec.Log("ho", strconv.Itoa(i))
+				}
+			}
 		},
-	}, requestreply.BackendPubsubJSONMarshaler[Res]{})
+	}
+	if sc.NoHook {
+		backendCfg.OnListenForReplyFinished = nil
+	}
+	backend, err := requestreply.NewPubSubBackend[Res](backendCfg, requestreply.BackendPubsubJSONMarshaler[Res]{})
 	if err != nil {
 		res.Stuck = append(res.Stuck, "setup: "+err.Error())
 		return res
@@ -621,6 +662,7 @@ func Run(sc Scenario) *Result {
 					case r, ok := <-ch:
 						if !ok {
 							rec.Log("zz", is)
+							onceSaw[i].Do(func() { close(sawClosed[i]) })
 							return
 						}
 						kind := logReply(i, r)
@@ -659,20 +701,20 @@ func Run(sc Scenario) *Result {
 				waitLate()
 				endCtx()
 				if spec.End == "timeout" {
-					waitCh(fin[i], liveness)
+					waitListener(i, liveness)
 				}
 			case "never":
 				waitLate()
 				endCtx()
 				if spec.End == "timeout" {
-					waitCh(fin[i], liveness)
+					waitListener(i, liveness)
 				}
 			case "early":
 				endCtx()
 				if spec.ReadAfter {
 					drain(1 << 30)
 				} else if spec.End == "timeout" {
-					waitCh(fin[i], liveness)
+					waitListener(i, liveness)
 				}
 			}
 		}()
@@ -775,7 +817,7 @@ func Run(sc Scenario) *Result {
 		if !started {
 			continue
 		}
-		if !waitCh(fin[i], left()) {
+		if !waitListener(i, left()) {
 			stuck("listener of request " + strconv.Itoa(i) + " did not finish")
 		}
 	}
@@ -874,6 +916,9 @@ func b01(b bool) string {
 func (r *Result) TopTrace() string {
 	var b strings.Builder
 	fmt.Fprintf(&b, "top %s %s %s %d", r.Sc.Token(), b01(r.Sc.AckErrs), b01(r.Sc.TimeoutMs > 0), len(r.Sc.Reqs))
+	if r.Sc.NoHook {
+		b.WriteString(" nh")
+	}
 	for _, e := range r.Events {
 		switch e.Kind {
 		case "op", "sr", "hs", "hr", "pc", "pr", "ak", "nk", "rv", "cx", "px", "cy", "te", "zz", "fin", "fz", "end", "cp":
@@ -950,6 +995,8 @@ func (r *Result) ListenerStreams() []string {
 			}
 		case "fin":
 			add(atoi(e.F[0]), "F")
+		case "ho":
+			add(atoi(e.F[0]), "O")
 		case "zz":
 			add(atoi(e.F[0]), "Z")
 		case "fz":
@@ -1008,6 +1055,12 @@ func Emit(out *wh.Out, res *Result) {
 	}
 	if sc.CloseSub {
 		out.Count("reply-pubsub-closed-early")
+	}
+	if sc.NoHook {
+		out.Count("no-finished-hook-configured")
+	}
+	if sc.HookWait {
+		out.Count("hook-waits-for-observed-close")
 	}
 	out.Add("events", len(res.Events))
 	for _, e := range res.Events {
